@@ -164,6 +164,9 @@ struct LiveObs {
     ports_offer: usize, ports_answer: usize,
     extra_o: (usize, usize), extra_a: (usize, usize),
     data_oa: Option<Result<(), String>>, data_ao: Option<Result<(), String>>,
+    /// after Connected both ends open channels of their own: ids (offerer concurrent, answerer concurrent,
+    /// offerer sequential, answerer sequential) and the four deliveries on the channel with the peer's label
+    dc2_ids: Vec<u16>, dc2: Vec<(&'static str, Result<(), String>)>,
     rtp_oa: Vec<Result<(), String>>, rtp_ao: Vec<Result<(), String>>,
     srtp_fn: Vec<(String, String)>,
     connect_ms: u128,
@@ -231,6 +234,37 @@ async fn exec_live(cfg: Cfg, with_srtp_fn: bool) -> LiveObs {
             if let (Some(odc), Some(adc)) = (p.off.dc.clone(), p.ans.dc.clone()) {
                 o.data_ao = Some(dc_roundtrip(&p.ans.pc, adc.id, &odc, b"verif-c10 answerer->offerer \xfe\x00", T_MSG).await);
             } else { o.data_ao = Some(Err("no channel at the answerer".into())); }
+            // Both ends open channels of their own on the live connection (seed C10-b): first at the same
+            // moment — neither has seen the other's DCEP OPEN when it allocates —, then one after the other.
+            // Each end must be told about the peer's channel (its label) and receive the peer's message THERE.
+            if o.data_oa == Some(Ok(())) && o.data_ao == Some(Ok(())) {
+                let (po, pa) = (p.off.pc.clone(), p.ans.pc.clone());
+                let mk = |pc: &PeerConnection, l: &str| pc.create_data_channel(l, None).map_err(|e| format!("create_data_channel: {e}"));
+                // every channel stays alive to the end of the step (a dropped channel frees its id)
+                let mut keep: Vec<Arc<rustrtc::transports::sctp::DataChannel>> = vec![];
+                match (mk(&po, "c-off"), mk(&pa, "c-ans")) {
+                    (Ok(co), Ok(ca)) => {
+                        o.dc2_ids.push(co.id); o.dc2_ids.push(ca.id); keep.push(co.clone()); keep.push(ca.clone());
+                        let at_a = announced_channel(&pa, "c-off", T_MSG).await;
+                        let at_o = announced_channel(&po, "c-ans", T_MSG).await;
+                        if let Ok(d) = &at_a { keep.push(d.clone()); } if let Ok(d) = &at_o { keep.push(d.clone()); }
+                        o.dc2.push(("o->a:concurrent", async { let d = at_a?; wait_open(&co, T_MSG).await?; dc_roundtrip(&po, co.id, &d, b"verif-c10 c-off", T_MSG).await }.await));
+                        o.dc2.push(("a->o:concurrent", async { let d = at_o?; wait_open(&ca, T_MSG).await?; dc_roundtrip(&pa, ca.id, &d, b"verif-c10 c-ans", T_MSG).await }.await));
+                    }
+                    (a, b) => { o.dc2.push(("o->a:concurrent", a.map(|_| ()))); o.dc2.push(("a->o:concurrent", b.map(|_| ()))); }
+                }
+                match mk(&po, "s-off") {
+                    Ok(so) => { o.dc2_ids.push(so.id); keep.push(so.clone());
+                        o.dc2.push(("o->a:sequential", async { let d = announced_channel(&pa, "s-off", T_MSG).await?; keep.push(d.clone()); wait_open(&so, T_MSG).await?; dc_roundtrip(&po, so.id, &d, b"verif-c10 s-off", T_MSG).await }.await)); }
+                    Err(e) => o.dc2.push(("o->a:sequential", Err(e))),
+                }
+                match mk(&pa, "s-ans") {
+                    Ok(sa) => { o.dc2_ids.push(sa.id);
+                        o.dc2.push(("a->o:sequential", async { let d = announced_channel(&po, "s-ans", T_MSG).await?; wait_open(&sa, T_MSG).await?; dc_roundtrip(&pa, sa.id, &d, b"verif-c10 s-ans", T_MSG).await }.await)); }
+                    Err(e) => o.dc2.push(("a->o:sequential", Err(e))),
+                }
+                drop(keep);
+            }
         }
         // RTP: one packet (sample) per media section each way
         for (i, m) in p.off.media.iter().enumerate() {
@@ -281,7 +315,8 @@ fn live_lines(cfg: &Cfg, o: &LiveObs) -> (String, String) {
         o.ks_o.as_ref().map(|m| hex(m)).unwrap_or_else(|| "-".into()),
         o.ks_a.as_ref().map(|m| hex(m)).unwrap_or_else(|| "-".into()),
         o.suite_o, o.suite_a) + &format!(" # {}", cfg.text());
-    let out = format!("conn={} roles={}/{} setup={}/{} profile={}/{} keys={}/{} bundle={}/{} mux={}/{} ports={}/{} extra={}.{}/{}.{} data={}/{} rtp={}/{}",
+    let dc2 = if o.dc2.is_empty() { "-".to_string() } else { format!("{}:{}", o.dc2_ids.iter().map(|i| i.to_string()).collect::<Vec<_>>().join("."), o.dc2.iter().map(|(_, r)| if r.is_ok() { '1' } else { '0' }).collect::<String>()) };
+    let out = format!("conn={} roles={}/{} setup={}/{} profile={}/{} keys={}/{} bundle={}/{} mux={}/{} ports={}/{} extra={}.{}/{}.{} data={}/{} rtp={}/{} dc2={dc2}",
         o.connected as u8, role_text(o.role_o), role_text(o.role_a), o.setup_offer, o.setup_answer,
         o.profile_o, o.profile_a, o.keys_o, o.keys_a, o.bundle_offer as u8, o.bundle_answer as u8,
         o.mux_offer as u8, o.mux_answer as u8, o.ports_offer, o.ports_answer,
@@ -302,6 +337,7 @@ fn live_oracles(cfg: &Cfg, o: &LiveObs) -> Vec<(String, String)> {
     for (d, r) in [("o->a", &o.data_oa), ("a->o", &o.data_ao)] {
         if let Some(Err(e)) = r { f.push((format!("cfg:{cls}:data-not-delivered:{d}"), e.clone())); }
     }
+    for (d, r) in &o.dc2 { if let Err(e) = r { f.push((format!("cfg:{cls}:data-not-delivered:both-ends-create:{d}"), e.clone())); } }
     for (d, v) in [("o->a", &o.rtp_oa), ("a->o", &o.rtp_ao)] {
         for (i, r) in v.iter().enumerate() { if let Err(e) = r { f.push((format!("cfg:{cls}:rtp-not-delivered:{d}:section{i}"), e.clone())); } }
     }
@@ -371,6 +407,7 @@ fn emit_live(run: &mut Run, cfg: &Cfg, o: &LiveObs) {
 
 pub fn run(args: &Args) {
     let rt = tokio::runtime::Builder::new_multi_thread().worker_threads(8).enable_all().build().unwrap();
+    start_lag_monitor(rt.handle());
     let mut run = Run::new("c10", &args.out);
     if let Some(case) = &args.replay {
         let mut it = case.split_whitespace();
@@ -466,6 +503,11 @@ pub fn run(args: &Args) {
                     let input = format!("{} {}", role_text(pc.verif_lc_dtls_role()),
                         if used.is_empty() { "-".to_string() } else { used.iter().map(|x| x.to_string()).collect::<Vec<_>>().join(",") });
                     run.case("dc", &input, &format!("{}", dc.id), !used.is_empty());
+                    // the property on the allocation itself (concrete failing input, independent of the model): the id
+                    // is free and has the parity of the role at allocation time (None allocates like the client)
+                    let want_parity = if pc.verif_lc_dtls_role().unwrap_or(true) { 0 } else { 1 };
+                    if dc.id % 2 != want_parity { run.fail(&format!("dc:alloc:{}:wrong-parity", role_text(pc.verif_lc_dtls_role())), &format!("dc {input}"), &format!("allocated stream id {} with ids in use [{}]", dc.id, input.split(' ').nth(1).unwrap_or("-"))); }
+                    if used.contains(&dc.id) { run.fail(&format!("dc:alloc:{}:id-in-use", role_text(pc.verif_lc_dtls_role())), &format!("dc {input}"), &format!("allocated stream id {} which is in use", dc.id)); }
                     if used.contains(&dc.id) { run.fail("dc:allocated-id-in-use", &format!("dc {input}"), &format!("id {}", dc.id)); }
                     used.insert(dc.id);
                     keep.push(dc);
@@ -577,6 +619,7 @@ pub fn run(args: &Args) {
         v
     };
     run.notes.insert("lattice_valid_points".into(), serde_json::json!(all.len()));
+    run.notes.insert("scheduling_lag_note".into(), serde_json::json!("every live time bound (gathering 5 s, Connected 12 s, channel / message / RTP 10 s) is stretched by the scheduling lag measured continuously on the harness runtime (how late a 100 ms sleep fires; factor 1.0 on an idle host, capped at 5.0); messages quote the nominal bound"));
     run.notes.insert("lattice_points_run".into(), serde_json::json!(points.len()));
     let par = 8usize;
     let t0 = Instant::now();
